@@ -236,8 +236,11 @@ pub unsafe extern "C" fn write(fd: c_int, buf: *const c_void, count: size_t) -> 
 #[no_mangle]
 pub unsafe extern "C" fn rename(old: *const c_char, new: *const c_char) -> c_int {
     if let Decision::Fail(e) = decide("rename", &cstr(old), &cstr(new), 0, None) {
-        set_errno(e);
-        return -1;
+        // EXDEV ("other mount") is only a faithful answer when the source exists; a missing source is ENOENT on any mount
+        if !(e == libc::EXDEV && libc::syscall(libc::SYS_access, old, libc::F_OK) != 0) {
+            set_errno(e);
+            return -1;
+        }
     }
     libc::syscall(libc::SYS_rename, old, new) as c_int
 }
